@@ -215,7 +215,7 @@ DenoteMulti(type, t) ==
 ----------------------------------------------------------------------------
 (* values and their spellings *)
 Sp(s) == <<32>> \o s \o <<32>>
-IntVals == {0, 7, -12, 65535, 123456789}
+IntVals == {0, 7, -12, 65535, 1234567}
 IntSpell(v) == {IntText(v), Sp(IntText(v))} \cup (IF v >= 0 THEN {<<43>> \o IntText(v), <<48, 48>> \o IntText(v)} ELSE {})
 FloatVals == {<<0, 1>>, <<3, 2>>, <<-1, 4>>, <<3, 1>>, <<1000, 1>>, <<1, 2>>, <<1, 8>>}          \* 0 1.5 -0.25 3 1000 0.5 0.125
 FloatSpell(v) ==
@@ -274,7 +274,10 @@ MultiParts(type) ==
     ELSE IF type = "datetime" THEN {<<50,48,50,48,45,48,50,45,50,57>>, <<49,51,58,48,53>>, <<121,101,115,116,101,114,100,97,121>>}
                                                                                                             \* 2020-02-29 13:05 yesterday
     ELSE {<<49,104,32,51,48,109>>, <<52,53>>, <<49,120>>}                                                   \* "1h 30m" 45 1x
-Texts(type, mult) == IF mult THEN MultiParts(type) ELSE Good(type) \cup Bad(type)
+TextsOf(type, mult) == IF mult THEN MultiParts(type) ELSE Good(type) \cup Bad(type)
+AllTypes == {"str", "int", "float", "bool", "datetime", "timedelta"}
+TextsTable == [t \in AllTypes, m \in BOOLEAN |-> TextsOf(t, m)]          \* constant: evaluated once
+Texts(type, mult) == TextsTable[type, mult]
 
 (* python literals written unquoted into a config file: <<literal, type it has, denoted value or Err>> *)
 NativeTable ==
